@@ -158,8 +158,9 @@ type connReader struct{ k *sys.Conn }
 func (c connReader) Read(b []byte) (int, error) { return 0, fmt.Errorf("unused") }
 
 func c17SchedRun(c *fw.Ctx) {
-	for _, sp := range c17SchedSpecs() {
-		exploreSched(c, c17SchedScenario(c, sp))
+	specs := c17SchedSpecs()
+	for i, sp := range specs {
+		c.Share(len(specs)-i, func() { exploreSched(c, c17SchedScenario(c, sp)) })
 	}
 }
 
